@@ -5,7 +5,7 @@ import os
 import re
 import sys
 
-REPO = "/repo/fickling"
+REPO = os.path.join(os.environ.get("VERIF_REPO", "/repo").rstrip("/"), "fickling")
 FILES = ["fickle.py", "analysis.py", "ml.py", "hook.py", "cli.py", "loader.py"]
 IDENT = re.compile(r"^[A-Za-z_][A-Za-z0-9_]*(\.[A-Za-z_][A-Za-z0-9_]*)*$")
 
